@@ -17,5 +17,9 @@ CONSTANTS
   BugNoCloseWrong = FALSE
   BugAbsorb = FALSE
   BugInlineRefresh = FALSE
+  BugPrefixMatch = FALSE
+  BugAnySet = FALSE
+  MasterSet <- Own
+  SetNames <- NamesQuick
 INVARIANTS TypeOK TrafficOnlyToVerifiedRole TrafficFollowsInstalled NoTrafficToWrongRole SwapOnlyVerified SwapOnlyReported CoreMatchesImpl SubscribedOrRefreshing RefreshNotStuck
 CHECK_DEADLOCK FALSE
